@@ -4,6 +4,7 @@
 import GffModel.Proto
 import GffModel.Interface
 import GffModel.Export
+import GffModel.DbExport
 
 namespace GffModel
 namespace ProtoDb
@@ -240,6 +241,28 @@ def step (w : World) (ws : List String) : Option (World × String) :=
       pure (w, match Export.sequence [(sq, fs)] sq st en sd us with
         | .ok t => "ok " ++ Str.encode t
         | .error e => encErr e)
+  | ["introns", gp, pt, exonT, newT, ma, num] => do
+      let gp ← decStrOpt? gp; let pt ← decStrOpt? pt; let exonT ← Str.decode? exonT; let newT ← Str.decode? newT
+      let ma ← parseBool ma; let num ← parseBool num
+      pure (withSess w (fun s => match DbExport.createIntrons s exonT gp pt newT ma num with
+        | .ok fs => (w, s!"ok {fs.length} {encFeatures fs}")
+        | .error e => (w, encErr e)))
+  | ["splice", gp, pt, exonT, ma, num] => do
+      let gp ← decStrOpt? gp; let pt ← decStrOpt? pt; let exonT ← Str.decode? exonT
+      let ma ← parseBool ma; let num ← parseBool num
+      pure (withSess w (fun s => match DbExport.createSpliceSites s exonT gp pt ma num with
+        | .ok fs => (w, s!"ok {fs.length} {encFeatures fs}")
+        | .error e => (w, encErr e)))
+  | ["bp", id, ct, mg] => do
+      let id ← Str.decode? id; let ct ← Str.decode? ct; let mg ← parseBool mg
+      pure (withSess w (fun s => match DbExport.childrenBp s id ct mg Merge.defaultCriteria with
+        | .ok (n, s') => ({ sess := some s' }, s!"ok {n}")
+        | .error e => (w, encErr e)))
+  | ["mergeall", ex] => do
+      let ex ← parseBool ex
+      pure (withSess w (fun s => match DbExport.mergeAll s Merge.defaultCriteria ex with
+        | .ok (fs, s') => ({ sess := some s' }, "ok " ++ encList (fs.filterMap (·.id)))
+        | .error e => (w, encErr e)))
   | _ => none
 
 end ProtoDb
